@@ -16,6 +16,6 @@ echo "demo: clean rc=$rc_clean  patched rc=$rc_patched"
 cd /verif
 /venv/bin/python tools/baseline_cmp.py "$scr" | tail -3
 for id in "$@"; do
-  VERIF_REPO="$scr" ./check "$id" --tier "${TIER:-quick}" --no-evidence 2>&1 | grep -E "^(VIOLATION|UNSTABLE|HARNESS|C[0-9]+ tier)" | cut -c1-260 | awk -v id="$id" 'BEGIN{n=0} /^VIOLATION/{n++; next} {print} END{print id": "n" VIOLATION lines"}'
+  VERIF_REPO="$scr" ./check "$id" --tier "${TIER:-quick}" --no-evidence ${BUDGET:+--budget $BUDGET} 2>&1 | grep -E "^(VIOLATION|UNSTABLE|HARNESS|C[0-9]+ tier)" | cut -c1-260 | awk -v id="$id" 'BEGIN{n=0} /^VIOLATION/{n++; next} {print} END{print id": "n" VIOLATION lines"}'
 done
 rm -rf "$scr"
